@@ -22,14 +22,47 @@ neighbourhoods below the top length and for a 25 % sample at the top length; bot
 `search(seed, tier)` returns {"cases", "distinct_nontrivial", "failing", "samples"}; `python c06.py`
 runs the quick tier and prints the dict as JSON.
 """
+import importlib
 import itertools
 import json
+import os
 import random
 import sys
 import time
+import traceback
 
-from stdnum import damm, luhn, verhoeff
-from stdnum.iso7064 import mod_11_2, mod_11_10, mod_37_2, mod_37_36, mod_97_10
+sys.path.insert(0, os.path.dirname(os.path.dirname(os.path.abspath(__file__))))   # tools/
+import common  # noqa: E402
+
+from stdnum import damm, luhn, verhoeff  # noqa: E402
+from stdnum.iso7064 import mod_11_2, mod_11_10, mod_37_2, mod_37_36, mod_97_10  # noqa: E402
+
+PROPERTY = 'C06'
+
+RULE = (
+    'Per scheme (algorithm + alphabet): every payload up to a small length (quick: 3 decimal / 2 base 36; '
+    'thorough: 5 decimal / 3 base 36, full neighbourhood for a 25 % sample at the top length) plus random '
+    'payloads of length 4-300 and one of length 5000; for each payload: append-valid, uniqueness of the check '
+    'character over the whole check alphabet, every single substitution and every adjacent swap of the valid '
+    'word (a sample of 12 positions beyond length 40). Expected outcomes: Luhn misses exactly the swap of first/'
+    'last alphabet symbol; mod_11_10/mod_37_36 miss a swap iff the running checksums after the first of the two '
+    'characters are M/2 and M/2+1; mod_97_10: digit pair accepted iff congruent mod 97 to the generated pair, '
+    'substitutions/swaps only between characters of the same kind (digit/letter) with different values. '
+    'Non-trivial = distinct valid words of length >= 2 whose neighbourhood was explored.')
+
+_STDNUM_DIR = os.path.join(common.REPO, 'stdnum') + os.sep
+
+
+def exc_site(exc):
+    """innermost frame inside /repo/stdnum: '<relative file>:<function>:<stripped source line>'"""
+    for fr in reversed(traceback.extract_tb(exc.__traceback__)):
+        if fr.filename.startswith(_STDNUM_DIR):
+            return '%s:%s:%s' % (os.path.relpath(fr.filename, common.REPO), fr.name, (fr.line or '').strip())
+    return 'outside-stdnum:%s' % type(exc).__name__
+
+
+def rel_file(module):
+    return module.__name__.replace('.', '/') + '.py'
 
 DIGITS = '0123456789'
 HEX = '0123456789abcdef'
@@ -73,14 +106,30 @@ class Search:
         self.rnd = random.Random(seed)
         self.cases = 0
         self.failing = []
+        self.n_failing = 0
         self.samples = []
         self.nontrivial = set()
+        self.distribution = {}
 
-    def fail(self, s, function, args, observed, expected, tag):
-        if len(self.failing) < 200:
-            self.failing.append({
-                'module': s.module.__name__, 'function': function, 'args': [repr(a) for a in args],
-                'observed': observed, 'expected': expected, 'scheme': s.name, 'tag': tag})
+    def count(self, s, what, n=1):
+        d = self.distribution.setdefault(s.name, {})
+        d[what] = d.get(what, 0) + n
+
+    def fail(self, s, function, args, observed, expected, relation, exc=None, expected_value=None):
+        """record a violation; `args` are the positional arguments of `function` (strings)"""
+        self.n_failing += 1
+        self.count(s, 'FAILING ' + relation)
+        site = exc_site(exc) if exc is not None else '%s:%s:%s' % (rel_file(s.module), function, relation)
+        # keep at most 3 examples per (function, site), the shortest first seen
+        same = [c for c in self.failing if c['site'] == site and c['function'] == function]
+        if len(same) >= 3 or len(self.failing) >= 200:
+            return
+        self.failing.append({
+            'property': PROPERTY, 'module': s.module.__name__, 'function': function,
+            'args': [common.describe(a) for a in args],
+            'observed': observed, 'expected': expected, 'expected_value': expected_value,
+            'site': site, 'relation': relation, 'scheme': s.name,
+            'shown': [a if len(a) <= 60 else '%s… (%d chars)' % (a[:40], len(a)) for a in args]})
 
     def sample(self, s, what, w, result):
         if len(self.samples) < 40 and self.rnd.random() < 0.0005:
@@ -94,12 +143,14 @@ class Search:
         except Exception as e:  # noqa: B902
             self.cases += 1
             self.fail(s, s.calc.__name__, (p,) + ex, 'raises ' + type(e).__name__,
-                      'a check character (append-valid)', 'append-valid')
+                      'check character(s) that make the number valid', 'append-valid', exc=e)
             return
         w = p + c
         self.cases += 1
+        self.count(s, 'payloads')
         if not s.valid(w):
-            self.fail(s, 'is_valid', (w,) + ex, False, True, 'append-valid')
+            self.fail(s, 'is_valid', (w,) + ex, 'returns False', 'True (payload + generated check)',
+                      'append-valid', expected_value=True)
             return
         if len(w) >= 2:
             self.nontrivial.add((s.name, w))
@@ -112,13 +163,17 @@ class Search:
                 self.cases += 1
                 got = s.valid(p + cand)
                 if got != (cc % 97 == target):
-                    self.fail(s, 'is_valid', (p + cand,), got, cc % 97 == target, 'check-digits')
+                    self.fail(s, 'is_valid', (p + cand,), 'returns %r' % got, repr(cc % 97 == target),
+                              'check-digits', expected_value=(cc % 97 == target))
+            self.count(s, 'uniqueness checks', 100)
         else:
             for cand in s.check_alpha:
                 self.cases += 1
                 got = s.valid(p + cand)
                 if got != (cand == c):
-                    self.fail(s, 'is_valid', (p + cand,) + ex, got, cand == c, 'uniqueness')
+                    self.fail(s, 'is_valid', (p + cand,) + ex, 'returns %r' % got, repr(cand == c), 'uniqueness',
+                              expected_value=(cand == c))
+            self.count(s, 'uniqueness checks', len(s.check_alpha))
         if not all_neighbours:
             return
         # single substitutions (every position; a sample of positions for long words)
@@ -131,9 +186,11 @@ class Search:
                 if s.swap_rule == 'kind' and (kind(x) != kind(old) or b36(x) == b36(old)):
                     continue
                 self.cases += 1
+                self.count(s, 'substitutions')
                 if s.valid(head + x + tail):
-                    self.fail(s, 'is_valid', (head + x + tail,) + ex, True,
-                              'False (single substitution of %r)' % w, 'substitution')
+                    self.fail(s, 'is_valid', (head + x + tail,) + ex, 'returns True',
+                              'False (single substitution in a valid number)', 'substitution',
+                              expected_value=False)
         # adjacent transpositions
         positions = range(len(w) - 1) if len(w) <= 40 else sorted(self.rnd.sample(range(len(w) - 1), 12))
         for i in positions:
@@ -154,9 +211,12 @@ class Search:
             else:
                 expected = False
             self.cases += 1
+            self.count(s, 'swaps expected undetected' if expected else 'swaps expected detected')
             got = s.valid(sw)
             if got != expected:
-                self.fail(s, 'is_valid', (sw,) + ex, got, '%r (adjacent swap of %r)' % (expected, w), 'transposition')
+                self.fail(s, 'is_valid', (sw,) + ex, 'returns %r' % got,
+                          '%r (adjacent transposition in a valid number)' % expected, 'transposition',
+                          expected_value=expected)
             elif expected:
                 self.sample(s, 'undetected swap (as characterised)', sw, True)
 
@@ -221,21 +281,24 @@ def length_probes(srch, all_schemes):
     s97 = [s for s in all_schemes if s.name == 'mod_97_10/digits'][0]
     for n in (1000, 4000, 4297, 4298, 4299, 4300, 5000):
         p = ''.join(rnd.choice(DIGITS) for _ in range(n))
+        srch.count(s97, 'length probes')
         try:
             c = mod_97_10.calc_check_digits(p)
             ok = mod_97_10.is_valid(p + c)
             srch.cases += 1
             if not ok:
-                srch.fail(s97, 'is_valid', ('<%d random digits>+%s' % (n, c),), False, True, 'int-max-str-digits')
+                srch.fail(s97, 'is_valid', (p + c,), 'returns False', 'True (payload + generated check)',
+                          'append-valid', expected_value=True)
         except Exception as e:  # noqa: B902
             srch.cases += 1
             # is there any pair that validates?
             some = any(mod_97_10.is_valid(p + '%02d' % cc) for cc in range(100))
             srch.cases += 100
-            srch.fail(s97, 'calc_check_digits', ('<%d digits: %s…>' % (n, p[:12]),),
-                      'raises %s; %s two check digits validate' % (type(e).__name__, 'some' if some else 'no'),
+            srch.fail(s97, 'calc_check_digits', (p,),
+                      'raises %s (%d-digit payload); %s two check digits validate'
+                      % (type(e).__name__, n, 'some' if some else 'no'),
                       'check digits that make the number valid (append-valid at any length)',
-                      'int-max-str-digits')
+                      'append-valid', exc=e)
 
 
 def search(seed, tier='quick'):
@@ -252,18 +315,46 @@ def search(seed, tier='quick'):
         srch.random_long(s, max(1, n_random // 30), 41, 300)
     length_probes(srch, all_schemes)
     return {
+        'property': PROPERTY,
         'cases': srch.cases,
         'distinct_nontrivial': len(srch.nontrivial),
+        'rule': RULE,
         'failing': srch.failing,
-        'samples': srch.samples,
+        'n_failing': srch.n_failing,
+        'samples': srch.samples[:10],
+        'distribution': srch.distribution,
         'tier': tier, 'seed': seed, 'schemes': [s.name for s in all_schemes],
         'seconds': round(time.time() - t0, 1),
     }
 
 
+def replay(case):
+    """re-run one failing case on the current tree; the case if it still fails, None if it passes"""
+    mod = importlib.import_module(case['module'])
+    args = [common.rebuild(a) for a in case['args']]
+    fn = case['function']
+    if fn == 'is_valid':
+        try:
+            got = mod.is_valid(*args)
+        except Exception as e:  # noqa: B902
+            got = 'raises ' + type(e).__name__
+        if got == case.get('expected_value'):
+            return None
+        return dict(case, observed='returns %r' % (got,))
+    if fn in ('calc_check_digit', 'calc_check_digits'):
+        try:
+            c = getattr(mod, fn)(*args)
+        except Exception as e:  # noqa: B902
+            return dict(case, observed='raises ' + type(e).__name__, site=exc_site(e))
+        if mod.is_valid(args[0] + c, *args[1:]):
+            return None
+        return dict(case, observed='returns %r, but payload + check is not valid' % (c,))
+    raise ValueError('cannot replay %r' % (fn,))
+
+
 if __name__ == '__main__':
-    import os
     tier = sys.argv[1] if len(sys.argv) > 1 else 'quick'
     res = search(int(os.environ.get('VERIF_SEED', '1')), tier)
+    res['failing'] = res['failing'][:50]
     print(json.dumps(res))
     sys.exit(1 if res['failing'] else 0)
